@@ -1,8 +1,8 @@
 (* C04 -- LR parser is sound always and exact when its table is deterministic.
    Statements only. *)
 From Coq Require Import NArith List Bool.
-From PV Require Import Spec.Cfg Model.Table Spec.NLR Validators.TableStruct Model.LRDriver
-  Proofs.LRProofs.
+From PV Require Import Spec.Cfg Model.Table Spec.NLR Validators.TableStruct Validators.TableComplete
+  Model.LRDriver Proofs.LRProofs Proofs.CompleteProofs Proofs.UnambigProofs.
 Import ListNotations.
 Local Open Scope N_scope.
 
@@ -34,6 +34,41 @@ Theorem C04_tree_ok_iff : forall g t, tree_ok g t = true <-> wf_tree g t.
 Proof. exact tree_ok_iff. Qed.
 Print Assumptions C04_tree_ok_iff.
 
+(* Exactness for deterministic tables, part 1: if the table (annotated with the impl's LR(1)
+   items and FIRST sets) passes table_complete, EVERY derivation tree of EVERY token sequence
+   has an accepting run of the LR machine that builds exactly that tree: no sentence is lost
+   by the table. *)
+Theorem C04_every_sentence_has_a_run :
+  forall (g : grammar) (tb : table) (ann : list (list litem)) (fst_tab : list (list N))
+         (nul_tab : list bool) (stop_id start : N) (d t : tree),
+    table_complete g tb ann fst_tab nul_tab stop_id = true ->
+    (exists pr0, get_prod g 0 = Some pr0 /\ rhs pr0 = [NT start]) ->
+    wf_tree g t -> root_sym g t = Some (NT start) ->
+    exists st, lsteps g tb stop_id ([(O, d)], leaves t) (st, []) /\ laccepts tb stop_id st t.
+Proof.
+  intros g tb ann fst_tab nul_tab stop_id start d t H.
+  exact (lr_machine_complete g tb ann fst_tab nul_tab stop_id H start d t).
+Qed.
+Print Assumptions C04_every_sentence_has_a_run.
+
+(* part 2: if moreover every cell of the table holds a single action, the grammar is
+   unambiguous: two derivation trees of the same token sequence are the same tree (up to the
+   spans recorded in interior nodes). *)
+Theorem C04_unambiguous :
+  forall g tb ann fst_tab nul_tab stop_id start t1 t2,
+    table_complete g tb ann fst_tab nul_tab stop_id = true ->
+    det_table tb = true ->
+    (exists pr0, get_prod g 0 = Some pr0 /\ rhs pr0 = [NT start]) ->
+    wf_tree g t1 -> root_sym g t1 = Some (NT start) ->
+    wf_tree g t2 -> root_sym g t2 = Some (NT start) ->
+    leaves t1 = leaves t2 ->
+    shape t1 = shape t2.
+Proof. exact det_unambiguous. Qed.
+Print Assumptions C04_unambiguous.
+
+(* NOT PROVED (partial): that the LR *driver* (with the scanner) follows that unique run, and
+   that GLRParser returns exactly that tree; both are decided per generated case. *)
+
 (* non-vacuity: S' -> S ; S -> 'a'   with its 3-state table *)
 Definition g1 : grammar := [mkProd 0 [NT 1]; mkProd 1 [T 0]].
 Definition tb1 : table :=
@@ -41,9 +76,15 @@ Definition tb1 : table :=
     mkState (NT 1) [(1, [Accept])] [] [false] [(0, 1%nat)];
     mkState (T 0) [(1, [Reduce 1])] [] [false] [(1, 1%nat)] ].
 Example C04_nonvacuous :
+  det_table tb1 = true /\
+  table_complete g1 tb1 [ [(0, 0%nat, []); (1, 0%nat, [1])]; [(0, 1%nat, [])]; [(1, 1%nat, [1])] ]
+                 [[0]; [0]] [false; false] 1 = true /\
   table_struct g1 tb1 1 = true /\
   exists t rp lay tr,
     lr_parse g1 tb1 (fun p => Some p)
              (fun st p => if (p =? 0) then TTok 0 1 else TTok 1 0) 1 true false 10 0
     = LROk t rp lay tr /\ leaves t = [(0, 0, 1)].
-Proof. split; [vm_compute; reflexivity|]. vm_compute. do 4 eexists. split; reflexivity. Qed.
+Proof.
+  split; [vm_compute; reflexivity|]. split; [vm_compute; reflexivity|].
+  split; [vm_compute; reflexivity|]. vm_compute. do 4 eexists. split; reflexivity.
+Qed.
